@@ -536,6 +536,39 @@ theorem recursive_post (c : Cfg) (fs fs' : FS) (m : Mutation) (hi : FS.Inv fs)
   obtain ⟨i, hi', ha⟩ := hg' p (List.mem_cons_of_mem _ hp)
   exact ⟨i, by simp [follow, hi'], ha.1, ha.2⟩
 
+/-- **the recursive walk is complete, level by level**: after a successful recursive
+`mutateDirectory` the declared path was visited, and — when it resolves to a directory — so was
+every entry `ReadDir` lists for it in the resulting state.  The same holds for every nested call of
+the walk (`walkDir_children`), i.e. for every directory entry the walk descends into. -/
+theorem recursive_children (c : Cfg) (fs fs1 : FS) (m : Mutation) (vs : List Text)
+    (hr : m.recursive = true) (h : mutateDirectory c fs m = (fs1, none, vs)) :
+    m.path ∈ vs ∧
+    ((∃ i, getNode c fs1 m.path = .ok i ∧ (fs1.node i).dir = true) →
+      ∀ es, (step c fs1 (.readDir m.path)).2 = .ok (.entries es) → ∀ e ∈ es, join2 m.path e.name ∈ vs) := by
+  unfold mutateDirectory at h
+  cases ha : act c fs (.mkdirAll m.path (permMode m.perms)) with
+  | mk fsA r =>
+    cases r with
+    | some e => simp [ha] at h
+    | none =>
+      simp only [ha, hr, if_true] at h
+      have hsh : ShapeEq fsA fs1 := by
+        have := walkRoot_keeps c (fun f p => mutatePermissionsDirect c f p m.perms m.uid m.gid) (ShapeEq fsA)
+          (fun f p hf => ShapeEq.trans hf (shape_mpd c f p _ _ _)) fsA m.path (ShapeEq.refl fsA)
+        rw [h] at this; exact this
+      unfold walkRoot at h
+      simp only [step] at h
+      cases hg : getNode c fsA m.path with
+      | error e => simp [hg] at h
+      | ok i =>
+        simp only [hg, statOf] at h
+        obtain ⟨h1, h2⟩ := walkDir_children c _ (fun f p => shape_mpd c f p _ _ _) _ fsA fs1 m.path _ vs h
+        refine ⟨h1, ?_⟩
+        rintro ⟨j, hj, hd⟩
+        rw [getNode_shape hsh, hg] at hj
+        cases hj
+        exact h2 (by rw [← hsh.dir i]; exact hd)
+
 /-- what a successful `mutateHardLink` leaves: the entry at the path *is* the node the source
 resolves to (one inode, two names) -/
 theorem mutateHardLink_post (c : Cfg) (hc : c.posix = false) (fs fs' : FS) (m : Mutation)
